@@ -5,7 +5,7 @@
 //
 // Rules:
 //
-//	R1 clock      time.Now()                      -> verifNow()
+//	R1 clock      time.Now (call or value), time.Since, time.Until -> verifNow / verifSince / verifUntil
 //	R2 pool       sync.Pool{New: ...}             -> verifPool{Name: "<var>", New: ...}
 //	R3 map order  range <package map | map field> -> range verifOrdered("<site>", <expr>)
 //	R4 yields     first statement of every func   -> verifYield(<n>)   (optional)
@@ -275,6 +275,16 @@ func Build(opt Options) (*Report, error) {
 						}
 					}
 				case *ast.SelectorExpr:
+					// R1: time.Now (called or taken as a function value), time.Since, time.Until
+					if timeAlias != "" && (x.Sel.Name == "Now" || x.Sel.Name == "Since" || x.Sel.Name == "Until") {
+						if id, ok := x.X.(*ast.Ident); ok && id.Name == timeAlias && id.Obj == nil {
+							edits = append(edits, edit{off(x.Pos()), off(x.End()) - off(x.Pos()), "verif" + x.Sel.Name})
+							rep.Seams["R1"]++
+							rep.Sites = append(rep.Sites, fmt.Sprintf("R1 %s:%d %s", base, fset.Position(x.Pos()).Line, curFunc))
+							usedR1 = true
+						}
+						return true
+					}
 					// R5: sync.Mutex / sync.RWMutex in any type position -> scheduler-aware locks
 					if syncAlias == "" || r5done[x] || (x.Sel.Name != "Mutex" && x.Sel.Name != "RWMutex") {
 						return true
@@ -284,20 +294,6 @@ func Build(opt Options) (*Report, error) {
 						rep.Seams["R5"]++
 						rep.Sites = append(rep.Sites, fmt.Sprintf("R5 %s:%d %s in %s", base, fset.Position(x.Pos()).Line, x.Sel.Name, curFunc))
 						usedR5 = true
-					}
-				case *ast.CallExpr:
-					if timeAlias == "" || len(x.Args) != 0 {
-						return true
-					}
-					se, ok := x.Fun.(*ast.SelectorExpr)
-					if !ok || se.Sel.Name != "Now" {
-						return true
-					}
-					if id, ok := se.X.(*ast.Ident); ok && id.Name == timeAlias && id.Obj == nil {
-						edits = append(edits, edit{off(se.Pos()), off(se.End()) - off(se.Pos()), "verifNow"})
-						rep.Seams["R1"]++
-						rep.Sites = append(rep.Sites, fmt.Sprintf("R1 %s:%d %s", base, fset.Position(x.Pos()).Line, curFunc))
-						usedR1 = true
 					}
 				case *ast.RangeStmt:
 					name := ""
@@ -479,6 +475,9 @@ func verifNow() time.Time {
 	}
 	return time.Now()
 }
+
+func verifSince(t time.Time) time.Duration { return verifNow().Sub(t) }
+func verifUntil(t time.Time) time.Duration { return t.Sub(verifNow()) }
 
 // VerifPoolHook decides what a pool hands out.
 type VerifPoolHook interface {
